@@ -1,3 +1,4 @@
+import re
 """C17 / C08: every exported method of every registered built-in contract, invoked directly by external accounts of every
 role with well-typed arguments (C17) or with ill-typed / truncated / extreme argument vectors (C08), audit on and off.
 
@@ -92,6 +93,58 @@ def warmup(r):
             "block ibtp ca2 c1:s1 c2:s1 1 ok 0 - ok"]
 
 
+def load_reserved():
+    """[(short contract, method, [param types], 1-based position of the chain parameter)]: methods whose only permission is
+    PermissionSelf over a chain id they take as a parameter (facts regenerated on this run): reserved to that chain's own admin"""
+    for p in (os.path.join(core.CACHE, "facts.json"), os.path.join(core.VERIF, "facts.baseline.json")):
+        if os.path.exists(p):
+            items = json.load(open(p)).get("items", {})
+            if "contractMethods" in items:
+                out = []
+                for tn, ms in sorted(items["contractMethods"].items()):
+                    if tn not in SHORT:
+                        continue
+                    for m in ms:
+                        for g in m.get("guards", []):
+                            if g.get("kind") == "perm" and g.get("perms") == ["PermissionSelf"] and g.get("selfArg"):
+                                out.append((SHORT[tn], m["name"], m["in"], g["selfArg"]))
+                return out
+    return []
+
+
+CHAIN_ADMIN = {"c1": "ca1", "c2": "ca2", "c3": "ca3", "c4": "ca4"}
+
+
+def reserved_probe(r, ops, tags):
+    """an operation reserved to a chain's own admin, about chain T, called with the same arguments by an outsider, by the admin
+    of another chain, by a governance admin and finally by T's own admin; each call bracketed by dumps"""
+    res = load_reserved()
+    if not res:
+        return
+    c, m, ins, pos = r.choice(res)
+    T = r.choice(["c1", "c2", "c2", "c4", "c4", "c3"])
+    args = []
+    for i, t in enumerate(ins):
+        if i == pos - 1:
+            args.append("s:" + T)
+        elif (c, m) == ("service", "RegisterService"):
+            args.append(["", "s:s%d" % r.randint(5, 9), "s:svc-%s-%d" % (T, r.randint(0, 99)), "s:CallContract", "s:intro", "u:1", "s:~", "s:details", "s:reason"][i])
+        elif (c, m) in (("rule", "UpdateMasterRule"), ("rule", "RegisterRule"), ("rule", "LogoutRule")) and i == 1:
+            args.append("s:" + r.choice(["0x00000000000000000000000000000000000000a2", "0x00000000000000000000000000000000000000a1", "0x00000000000000000000000000000000000000a0"]))
+        else:
+            a = typed_arg(r, t)
+            if a is None:
+                return
+            args.append(a)
+    others = [a for ch, a in CHAIN_ADMIN.items() if ch != T]
+    callers = ["u0", r.choice(others), r.choice(others), "adm1", CHAIN_ADMIN[T]]
+    for who in callers:
+        ops.append("q dump")
+        ops.append(f"block bvm {who} {c} {m} " + " ".join(args))
+        ops.append("q dump")
+    tags.add(f"reserved:{c}.{m}:{T}")
+
+
 def gen_c17(rng, n, tier):
     import random as _r
     methods = [m for m in load_methods() if m[4] == ["*boltvm.Response"] or m[1] in STUB]
@@ -141,6 +194,8 @@ def gen_c17(rng, n, tier):
             ops.append("q dump")
             tags.add(f"call:{cls}")
             tags.add(f"m:{c}.{m}")
+        if r.random() < 0.5:
+            reserved_probe(r, ops, tags)
         ops += ["q ic c1:s1", "q ic c2:s1", "q status 1356:c1:s1-1356:c2:s1-1", "q status 1356:c2:s1-1356:c1:s1-1"]
         hs.append(History(ops, tags=tags))
     return hs
@@ -170,6 +225,8 @@ FOREIGN = ("c1",)   # the probes act on objects of chain c1; ca2 / outsiders hav
 def mon_c17(h, obs):
     hits = []
     steps = mon_exec.parse_trace(h, obs)
+    reserved = {(c, m): pos for (c, m, _ins, pos) in load_reserved()}
+    outsider_class = {}      # (contract, method, args) -> error class an outsider got for exactly this call
     for i, st in enumerate(steps):
         if st[0] != "block" or not st[1].ok:
             continue
@@ -201,11 +258,24 @@ def mon_c17(h, obs):
                 hits.append(Hit(f"C17/foreign-interchain-record-changed/{c}.{m}", f"{c}.{m} by {tx.signer} ({cls}) changed {k}", detail=b.op))
                 break
         # R3: objects of chain c1 are not modified by outsiders or by another chain's admin
-        if cls in ("outsider", "other-chain-admin") and (c, m) not in OPEN_WRITERS:
+        if cls in ("outsider", "other-chain-admin") and tx.signer != CHAIN_ADMIN["c1"] and (c, m) not in OPEN_WRITERS:
             for k in changed:
                 if k in d0 and re_c1(k):
                     hits.append(Hit(f"C17/foreign-object-changed/{c}.{m}", f"{c}.{m} by {tx.signer} ({cls}) changed {k}", detail=b.op))
                     break
+        # R4: an operation reserved to a chain's own admin fails for everyone else — and in the same way as for an outsider
+        if (c, m) in reserved and len(tx.args) >= reserved[(c, m)]:
+            a = tx.args[reserved[(c, m)] - 1]
+            chain = a[2:] if a.startswith("s:") else None
+            if chain in CHAIN_ADMIN and tx.signer != CHAIN_ADMIN[chain]:
+                key = (c, m, tuple(tx.args))
+                if rc.ok:
+                    hits.append(Hit(f"C17/reserved-operation-open-to-others/{c}.{m}", f"{c}.{m} about chain {chain} called by {tx.signer} ({cls}) succeeded; it is reserved to {CHAIN_ADMIN[chain]}", detail=b.op))
+                elif cls == "outsider":
+                    outsider_class[key] = rc.ret
+                elif key in outsider_class and rc.ret != outsider_class[key]:
+                    hits.append(Hit(f"C17/reserved-operation-passed-permission-check/{c}.{m}",
+                                    f"{c}.{m} about chain {chain}: {tx.signer} ({cls}) was refused with {rc.ret}, an outsider with {outsider_class[key]}: the caller got past the owner check", detail=b.op))
         # a failed call changes nothing (C07 restated for this traffic)
         if not rc.ok and changed:
             hits.append(Hit(f"C17/failed-call-changed-state/{c}.{m}", f"failed {c}.{m} changed {changed[:4]}", detail=b.op))
@@ -320,7 +390,8 @@ def gen_c08(rng, n, tier):
             txs = []
             for _t in range(r.choice([1, 1, 2, 3, 5])):
                 k = r.random()
-                signer = r.choice(["u0", "u1", "ca1", "ca2", "adm1"])
+                # p0 / p1 hold nothing: every transaction of theirs also fails to pay its fee
+                signer = r.choice(["u0", "u1", "ca1", "ca2", "adm1", "p0", "p1"])
                 if k < 0.35 and methods:
                     c, m, ins, declared, out = r.choice(methods)
                     args = bad_args(r, ins)
@@ -410,6 +481,44 @@ def tags_c08(h, obs):
 ORIGIN_OK = {"c1": True, "c2": True, "c3": False, "c4": True}     # rule verdict for a well-formed proof (HappyRule / SimFabric rule of the world)
 
 
+RULES = {"happy": "0x00000000000000000000000000000000000000a2", "simfabric": "0x00000000000000000000000000000000000000a1"}
+PRELUDE_PROPOSALS = {"ca1": 3, "ca2": 4, "ca3": 2, "ca4": 2}
+
+
+def rule_update(g, r):
+    """an appchain admin proposes another master rule ("against appchains whose rule was changed"): c3 (rule rejects) asks for
+    the accept-everything rule, or c1 / c2 ask for the rejecting one; governance approves or rejects; IBTPs of that chain are
+    probed before, while the proposal is open, and afterwards, each bracketed by dumps and by a read of the bound master rule"""
+    c = r.choice(["c3", "c3", "c1", "c2"])
+    new = RULES["happy"] if c == "c3" else RULES["simfabric"]
+    ca = "ca" + c[1]
+    svc = {"c1": "c1:s1", "c2": "c2:s1", "c3": "c3:s1"}[c]
+    peer = "c4:s1"
+    ref = f"@{ca}-{PRELUDE_PROPOSALS[ca]}"
+    state = {"idx": 1}
+
+    def probe():
+        g.ops.append(f"q obj rule {c}")
+        g.ops.append("q dump")
+        g.ops.append(f"block ibtp {ca} {svc} {peer} {state['idx']} req 0 - ok")
+        g.ops.append("q dump")
+        state["idx"] += 1      # optimistic; a rejected probe makes the next index wrong, which is a rejection as well
+    probe()
+    g.ops.append(f"block bvm {ca} rule UpdateMasterRule s:{c} s:{new} s:reason")
+    g.ops.append(f"q prop {ref}")
+    g.ops.append(f"q obj rule {c}")
+    if r.random() < 0.5:
+        probe()
+    ballot = r.choice(["approve", "reject", "reject"])
+    for v in ["adm0", "adm1", "adm2"]:
+        g.ops.append(f"block bvm {v} gov Vote s:{ref} s:{ballot} s:r")
+    g.ops.append(f"q prop {ref}")
+    state["idx"] = 1 if state["idx"] > 1 and c == "c3" else state["idx"]
+    for _ in range(2):
+        probe()
+    g.tags.add(f"rule-update:{c}:{ballot}")
+
+
 def gen_c03(rng, n, tier):
     """IBTP requests and receipts with every proof kind (ok / absent / hash mismatch / plain false) from chains whose rule
     accepts, rejects with an error, or that were never registered; every such single-IBTP block is bracketed by state dumps;
@@ -423,6 +532,8 @@ def gen_c03(rng, n, tier):
         tags = g.tags
         tags.add("c03")
         chains = SERVICES + ["c9:s1", "c1:s9"]
+        if r.random() < 0.2:
+            rule_update(g, r)
         for _b in range(r.randint(4, 10)):
             k = r.random()
             if k < 0.3:
@@ -457,7 +568,13 @@ def gen_c03(rng, n, tier):
 def mon_c03(h, obs):
     hits = []
     steps = mon_exec.parse_trace(h, obs)
+    master = {}        # chain -> verdict of the master rule as last read back (GetMasterRule), overriding the world's default
     for i, st in enumerate(steps):
+        if st[0] == "q" and st[1] == "obj" and st[2] == "rule" and len(st[4]) > 3:
+            m = re.search(r"status=(\S+) addr=(\S+)", st[3])
+            if m:
+                master[st[4][3]] = (m.group(2).lower() == RULES["happy"]) and m.group(1) == "available"
+            continue
         if st[0] != "block" or not st[1].ok:
             continue
         b = st[1]
@@ -469,7 +586,7 @@ def mon_c03(h, obs):
                 origin = (tx.frm if tx.typ == "req" else tx.to)
                 parts = origin.split(":")
                 chain = parts[0] if len(parts) == 2 else (parts[1] if len(parts) == 3 and parts[0] == "1356" else None)
-                verified = tx.proof == "ok" and ORIGIN_OK.get(chain, False) and tx.typ in ("req", "ok", "fail", "rb")
+                verified = tx.proof == "ok" and master.get(chain, ORIGIN_OK.get(chain, False)) and tx.typ in ("req", "ok", "fail", "rb")
                 if rc.ok and not verified:
                     hits.append(Hit(f"C03/unverified-ibtp-accepted/{tx.proof}", f"tx {j} of block {b.h}: proof={tx.proof} origin={origin} got a successful receipt", detail=b.op))
                 if not verified and j in {v[0] for vs in b.counter.values() for v in vs}:
